@@ -261,7 +261,7 @@ func runCrashChild(self, dir, hf string, killAt int64) (crashRun, error) {
 }
 
 func suiteCrash(c *Ctx) error {
-	c.Res.Rule = "short histories (3..6 mutations: add / batch add / delete, half of them with one RebuildIndexes) on a real directory; mode A: for every sampled index k of the write-type file-system calls (create/write/sync/rename/remove/...) the child process is SIGKILLed exactly before call k, the parent reopens and requires records+indexes to equal the state after `acked` or `acked+1` operations (raw key dump vs the Lean model's key set; interrupted rebuild: records intact, second rebuild restores consistency); mode B: strict in-memory FS, unsynced data dropped after every acknowledged operation; mode C: a store of 1110 records with IDs that are prefixes of each other loses power before the k-th sync of RebuildIndexes (every k), is reopened and rebuilt again: records intact, all three indexes complete, every signature reachable by its topology hash; non-trivial = the kill lands inside a mutation (not before the first / after the last); distinct by (history,k)"
+	c.Res.Rule = "short histories (3..6 mutations: add / batch add / delete, half of them with one RebuildIndexes) on a real directory; mode A: for every sampled index k of the write-type file-system calls (create/write/sync/rename/remove/...) the child process is SIGKILLed exactly before call k, the parent reopens and requires records+indexes to equal the state after `acked` or `acked+1` operations (raw key dump vs the Lean model's key set; interrupted rebuild: records intact, second rebuild restores consistency); mode B: strict in-memory FS, unsynced data dropped after every acknowledged operation; mode D: one AddSignatures call of three 6 MiB signatures loses power before every sync: all or nothing; mode C: a store of 1110 records with IDs that are prefixes of each other loses power before the k-th sync of RebuildIndexes (every k), is reopened and rebuilt again: records intact, all three indexes complete, every signature reachable by its topology hash; non-trivial = the kill lands inside a mutation (not before the first / after the last); distinct by (history,k)"
 	self, _ := os.Executable()
 	nh := 6
 	perHist := 60
@@ -495,6 +495,12 @@ func suiteCrash(c *Ctx) error {
 		return err
 	}
 
+	// ---- mode D: ONE AddSignatures call of more than 10 MiB (three signatures with multi-megabyte
+	// descriptions) loses power before its k-th sync, for every k: all of the call or nothing ----
+	if err := crashBigBatch(c); err != nil {
+		return err
+	}
+
 	// ---- correspondence: the real key set equals the Lean model's key set for the accepted prefix ----
 	mouts, err := RunModel(c.Model, "store", modelLines)
 	if err != nil {
@@ -649,6 +655,80 @@ func crashBigRebuild(c *Ctx) error {
 		if bad != "" {
 			c.Violate("C07", "C07/rebuild-does-not-repair", fmt.Sprintf("large store (%d records, IDs MAL-0..MAL-%d), power lost before sync %d of %d of RebuildIndexes: %s", n, n-1, k+1, total, bad),
 				map[string]interface{}{"records": n, "ids": "MAL-<i> for i in 0..1109", "power_cut_before_sync": k + 1, "syncs_of_a_full_rebuild": total})
+		}
+	}
+	return nil
+}
+
+func crashBigBatch(c *Ctx) error {
+	mk := func(i int) *detection.Signature {
+		return &detection.Signature{ID: fmt.Sprintf("BIG-%d", i), Name: fmt.Sprintf("big %d", i), Severity: "HIGH",
+			TopologyHash: fmt.Sprintf("TB-%d", i), FuzzyHash: fmt.Sprintf("FB-%d", i), EntropyScore: 2.5 + float64(i),
+			Description: strings.Repeat(string(rune('a'+i)), 6<<20)}
+	}
+	once := func(cutAfter int32) (int32, string, error) {
+		mem := vfs.NewStrictMem()
+		pc := &powerCut{mem: mem}
+		pebbledb.VerifSetFS(cutFS{mem, pc})
+		defer pebbledb.VerifSetFS(nil)
+		mem.MkdirAll("/batchdb", 0o755)
+		if d, err := mem.OpenDir("/"); err == nil {
+			d.Sync()
+			d.Close()
+		}
+		ps, err := pebbledb.NewPebbleScanner("/batchdb", pebbledb.DefaultPebbleScannerOptions())
+		if err != nil {
+			return 0, "", err
+		}
+		if err := ps.AddSignature(&detection.Signature{ID: "SMALL", Name: "s", TopologyHash: "TS", FuzzyHash: "FS", EntropyScore: 1}); err != nil {
+			return 0, "", err
+		}
+		pc.budget.Store(cutAfter)
+		pc.armed.Store(true)
+		addErr := ps.AddSignatures([]*detection.Signature{mk(0), mk(1), mk(2)})
+		pc.armed.Store(false)
+		syncs := pc.seen.Load()
+		ps.Close()
+		mem.ResetToSyncedState()
+		mem.SetIgnoreSyncs(false)
+		ps2, err := pebbledb.NewPebbleScanner("/batchdb", pebbledb.DefaultPebbleScannerOptions())
+		if err != nil {
+			return syncs, "store unopenable after the power cut: " + err.Error(), nil
+		}
+		defer ps2.Close()
+		ids, _ := ps2.ListSignatureIDs()
+		nBig := 0
+		for _, id := range ids {
+			if strings.HasPrefix(id, "BIG-") {
+				nBig++
+			}
+		}
+		if nBig != 0 && nBig != 3 {
+			return syncs, fmt.Sprintf("%d of the 3 signatures of ONE AddSignatures call are present after the power cut (call returned %v)", nBig, addErr), nil
+		}
+		if len(ids)-nBig != 1 {
+			return syncs, fmt.Sprintf("the signature acknowledged before the batch is gone (%d ids)", len(ids)), nil
+		}
+		return syncs, "", nil
+	}
+	total, bad, err := once(1 << 20)
+	if err != nil {
+		return err
+	}
+	if bad != "" {
+		c.Violate("C07", "C07/half-applied-mutation", "large batch without a power cut: "+bad, map[string]interface{}{"mode": "no power cut"})
+	}
+	c.Count("big_batch_syncs_" + fmt.Sprint(total))
+	for k := int32(0); k < total; k++ {
+		_, bad, err := once(k)
+		if err != nil {
+			return err
+		}
+		c.Res.Evaluations++
+		c.Count("big_batch_power_cuts")
+		if bad != "" {
+			c.Violate("C07", "C07/half-applied-mutation", fmt.Sprintf("one AddSignatures call of three 6 MiB signatures, power lost before sync %d of %d: %s", k+1, total, bad),
+				map[string]interface{}{"batch": "BIG-0..BIG-2, 6 MiB description each", "power_cut_before_sync": k + 1, "syncs_of_the_call": total})
 		}
 	}
 	return nil
